@@ -9,17 +9,6 @@ open Sha1 (asc)
 
 /-! ## substrings, splitting, trimming -/
 
-theorem hasSub_iff (n h : Str) : hasSub n h = true ↔ n <:+: h := by
-  induction h with
-  | nil => simp [hasSub, List.isEmpty_iff]
-  | cons x xs ih =>
-    simp only [hasSub, Bool.or_eq_true, ih, List.infix_cons_iff, List.isPrefixOf_iff_prefix]
-
-theorem httpHeaderContains_iff (a b : Str) : httpHeaderContains a b = true ↔ lower b <:+: lower a := by
-  simp [httpHeaderContains, hasSub_iff]
-
-theorem lower_infix {a b : Str} (h : a <:+: b) : lower a <:+: lower b := List.IsInfix.map _ h
-
 theorem trimAux_suffix (tbl : List Str) (n : Nat) (s : Str) : trimAux tbl n s <:+ s := by
   induction n generalizing s with
   | zero => exact List.suffix_refl s
@@ -76,6 +65,53 @@ theorem mem_split_infix {v e : Str} (h : e ∈ split v) : e <:+: v := by
 theorem mem_split_ne_nil {v e : Str} (h : e ∈ split v) : e ≠ [] := by
   unfold split at h
   simpa using (List.mem_filter.1 h).2
+
+theorem splitOn_ne_nil (sep : UInt8) (s : Str) : splitOn sep s ≠ [] := by
+  obtain ⟨q, qs, hq, -, -⟩ := splitOn_spec sep s
+  rw [hq]; simp
+
+theorem consHead_append (c : UInt8) {l : List Str} (hl : l ≠ []) (m : List Str) :
+    consHead c (l ++ m) = consHead c l ++ m := by
+  cases l with
+  | nil => exact absurd rfl hl
+  | cons p ps => rfl
+
+/-- splitting at a separator splits the list of pieces -/
+theorem splitOn_append_sep (sep : UInt8) (a b : Str) :
+    splitOn sep (a ++ sep :: b) = splitOn sep a ++ splitOn sep b := by
+  induction a with
+  | nil => simp [splitOn]
+  | cons c r ih =>
+    simp only [List.cons_append, splitOn]
+    split
+    · rw [ih]; rfl
+    · rw [ih, consHead_append c (splitOn_ne_nil sep r)]
+
+theorem split_nil : split [] = [] := by decide
+
+theorem split_append_comma (a b : Str) : split (a ++ 44 :: b) = split a ++ split b := by
+  unfold split
+  rw [splitOn_append_sep, List.map_append, List.filter_append]
+
+/-- reading all the lines joined by commas is reading every line: `Split(Join(lines, ","), ",")`
+yields the elements of the lines, line after line -/
+theorem split_joinComma (lines : List Str) : split (joinComma lines) = offered lines := by
+  unfold offered
+  induction lines with
+  | nil => simp [joinComma, split_nil]
+  | cons l ls ih =>
+    cases ls with
+    | nil => simp [joinComma]
+    | cons l' ls' =>
+      rw [joinComma, split_append_comma, ih]
+      simp
+
+theorem mem_offered {lines : List Str} {e : Str} : e ∈ offered lines ↔ ∃ line, line ∈ lines ∧ e ∈ split line := by
+  simp [offered, List.mem_flatMap]
+
+theorem mem_offered_ne_nil {lines : List Str} {e : Str} (h : e ∈ offered lines) : e ≠ [] := by
+  obtain ⟨line, -, he⟩ := mem_offered.1 h
+  exact mem_split_ne_nil he
 
 /-! ## case folding -/
 
@@ -137,15 +173,56 @@ theorem foldEq_13 (s : Str) : foldEq s (asc "13") = true ↔ s = asc "13" := by
     | _ :: _ :: _ :: _, hab => simp [lower] at hab
   · rintro rfl; decide
 
-/-- the token reading implies the substring reading the code implements -/
-theorem token_imp_contains {v : Str} (h : hasToken v (asc "upgrade")) :
-    httpHeaderContains v (asc "Upgrade") = true := by
-  obtain ⟨e, he, hf⟩ := h
-  rw [httpHeaderContains_iff]
-  have h1 : lower e = lower (asc "upgrade") := foldEq_lower (by decide) hf
-  have h2 : lower (asc "Upgrade") = lower (asc "upgrade") := by decide
-  rw [h2, ← h1]
-  exact lower_infix (mem_split_infix he)
+/-- a byte whose lower-casing is that of an ASCII byte is ASCII -/
+theorem lt_128_of_lowerB_eq {c x : UInt8} (hx : x < 128) (h : lowerB c = lowerB x) : c < 128 := by
+  rw [UInt8.lt_iff_toNat_lt] at hx ⊢
+  have h4 := congrArg UInt8.toNat h
+  unfold lowerB at h4
+  split at h4 <;> split at h4 <;> rename_i hc hxr
+  all_goals
+    first
+    | (have h1 := UInt8.le_iff_toNat_le.1 hc.2; simp at h1 ⊢; omega)
+    | (have h1 := UInt8.le_iff_toNat_le.1 hxr.1
+       have h2 := UInt8.le_iff_toNat_le.1 hxr.2
+       rw [UInt8.toNat_add] at h4
+       simp at h1 h2 h4 hx ⊢; omega)
+    | (simp at h4 hx ⊢; omega)
+
+/-- for an ASCII target, equality up to ASCII case implies `EqualFold` -/
+theorem foldEq_of_lower_eq {t : Str} (ht : ∀ x ∈ t, x < 128) {s : Str} (h : lower s = lower t) :
+    foldEq s t = true := by
+  induction t generalizing s with
+  | nil =>
+    cases s with
+    | nil => rfl
+    | cons c s => simp [lower] at h
+  | cons x t ih =>
+    cases s with
+    | nil => simp [lower] at h
+    | cons c s =>
+      simp only [lower, List.map_cons, List.cons.injEq] at h
+      have hc : c < 128 := lt_128_of_lowerB_eq (ht x List.mem_cons_self) h.1
+      unfold foldEq
+      simp only [hc, ↓reduceIte, Bool.and_eq_true, beq_iff_eq]
+      exact ⟨h.1, ih (fun y hy => ht y (List.mem_cons_of_mem _ hy)) h.2⟩
+
+/-- when the ASCII target contains neither `k` nor `s`, `EqualFold` IS equality up to ASCII case -/
+theorem foldEq_iff_lower {t : Str} (hks : ∀ x ∈ t, lowerB x ≠ 107 ∧ lowerB x ≠ 115)
+    (ht : ∀ x ∈ t, x < 128) (s : Str) : foldEq s t = true ↔ lower s = lower t :=
+  ⟨foldEq_lower hks, foldEq_of_lower_eq ht⟩
+
+theorem lower_Upgrade : lower (asc "Upgrade") = lower (asc "upgrade") := by decide
+
+/-- `HttpHeaderContainsToken(lines, "Upgrade")` is the token condition of the properties -/
+theorem containsToken_iff (lines : List Str) :
+    httpHeaderContainsToken lines (asc "Upgrade") = true ↔ HasToken lines (asc "upgrade") := by
+  unfold httpHeaderContainsToken HasToken
+  simp only [List.any_eq_true]
+  constructor
+  · rintro ⟨line, hl, e, he, hf⟩
+    exact ⟨line, hl, e, he, by rw [← lower_Upgrade]; exact (foldEq_iff_lower (by decide) (by decide) e).1 hf⟩
+  · rintro ⟨line, hl, e, he, hf⟩
+    exact ⟨line, hl, e, he, (foldEq_iff_lower (by decide) (by decide) e).2 (by rw [lower_Upgrade]; exact hf)⟩
 
 /-! ## first common element -/
 
@@ -238,7 +315,7 @@ theorem values_set_other (h : Header) (k v k' : Str) (hne : k' ≠ canon k) :
   | some e => rw [hf] at hd; simpa using hd
 
 theorem get_set_self (h : Header) (k v : Str) (hk : canon (canon k) = canon k) : get (set h k v) (canon k) = v := by
-  unfold get; rw [hk, values_set_self]; rfl
+  unfold get vals; rw [hk, values_set_self]; rfl
 
 theorem mem_deleteProtected {h : Header} {e : Str × List Str} :
     e ∈ deleteProtectedHeaders h ↔ e ∈ h ∧ e.1 ∉ protectedNames := by
@@ -267,10 +344,10 @@ def baseLines (key : Str) (ext : Option Str) : List (Str × Str) :=
   [(kUpgrade, asc "websocket"), (kConnection, asc "Upgrade")] ++
   optLine kExtensions ext ++ [(kAccept, acceptKey key)]
 
-/-- the request passes the five request checks of `doUpgradeFromConn` -/
+/-- the request passes the request checks of `doUpgradeFromConn` -/
 def ChecksPass (r : Request) (auth : Bool) : Prop :=
   auth = true ∧ r.method = asc "GET" ∧ foldEq (get r.header kVersion) (asc "13") = true ∧
-  httpHeaderContains (get r.header kConnection) (asc "Upgrade") = true ∧
+  httpHeaderContainsToken (vals r.header kConnection) (asc "Upgrade") = true ∧
   foldEq (get r.header kUpgrade) (asc "websocket") = true ∧ get r.header kKey ≠ []
 
 theorem serverDecide_of_not_pass {o : ServerOpt} {r : Request} {auth : Bool} {ext : Option Str}
@@ -283,7 +360,7 @@ theorem serverDecide_of_not_pass {o : ServerOpt} {r : Request} {auth : Bool} {ex
   · exact ⟨.handshake, by simp [h1, h2]⟩
   by_cases h3 : foldEq (get r.header kVersion) (asc "13") = false
   · exact ⟨.version, by simp [h1, h2, h3]⟩
-  by_cases h4 : httpHeaderContains (get r.header kConnection) (asc "Upgrade") = false
+  by_cases h4 : httpHeaderContainsToken (vals r.header kConnection) (asc "Upgrade") = false
   · exact ⟨.handshake, by simp [h1, h2, h3, h4]⟩
   by_cases h5 : foldEq (get r.header kUpgrade) (asc "websocket") = false
   · exact ⟨.handshake, by simp [h1, h2, h3, h4, h5]⟩
@@ -294,28 +371,32 @@ theorem serverDecide_of_not_pass {o : ServerOpt} {r : Request} {auth : Bool} {ex
   simp only [Bool.not_eq_false, ne_eq, Decidable.not_not] at h1 h2 h3 h4 h5
   exact ⟨h1, h2, h3, h4, h5, h6⟩
 
+/-- what the client offered: the elements of ALL its `Sec-WebSocket-Protocol` lines -/
+def offer (r : Request) : List Str := offered (vals r.header kProtocol)
+
 theorem serverDecide_of_pass {o : ServerOpt} {r : Request} {auth : Bool} {ext : Option Str}
     (h : ChecksPass r auth) :
     serverDecide o r auth ext =
       if o.subProtocols = [] then .accept (baseLines (get r.header kKey) ext ++ extraLines o) []
-      else if intersectionElem o.subProtocols (split (get r.header kProtocol)) = [] then .reject .subprotocol
+      else if intersectionElem o.subProtocols (offer r) = [] then .reject .subprotocol
       else .accept (baseLines (get r.header kKey) ext ++
-              [(kProtocol, intersectionElem o.subProtocols (split (get r.header kProtocol)))] ++ extraLines o)
-            (intersectionElem o.subProtocols (split (get r.header kProtocol))) := by
+              [(kProtocol, intersectionElem o.subProtocols (offer r))] ++ extraLines o)
+            (intersectionElem o.subProtocols (offer r)) := by
   obtain ⟨h1, h2, h3, h4, h5, h6⟩ := h
-  unfold serverDecide
+  unfold serverDecide offer
   simp only [h1, h2, h3, h4, h5, h6, Bool.true_eq_false, ↓reduceIte, ne_eq, not_true_eq_false]
   unfold RW.withSubProtocol
+  rw [split_joinComma]
   by_cases hs : o.subProtocols = []
   · cases ext <;> simp [hs, RW.withExtraHeader, RW.withHeader, RW.init, baseLines, extraLines, optLine]
-  · by_cases hi : intersectionElem o.subProtocols (split (get r.header kProtocol)) = []
+  · by_cases hi : intersectionElem o.subProtocols (offered (vals r.header kProtocol)) = []
     · cases ext <;> simp [hs, hi, RW.withExtraHeader, RW.withHeader, RW.init]
     · cases ext <;> simp [hs, hi, RW.withExtraHeader, RW.withHeader, RW.init, baseLines, extraLines, optLine]
 
 /-! ## the client check in closed form -/
 
 def RespChecksPass (key : Str) (resp : Resp) : Prop :=
-  resp.status = 101 ∧ httpHeaderContains (get resp.header kConnection) (asc "Upgrade") = true ∧
+  resp.status = 101 ∧ httpHeaderContainsToken (vals resp.header kConnection) (asc "Upgrade") = true ∧
   foldEq (get resp.header kUpgrade) (asc "websocket") = true ∧ get resp.header kAccept = acceptKey key
 
 theorem checkHeaders_eq_none_iff (key : Str) (resp : Resp) :
@@ -323,7 +404,7 @@ theorem checkHeaders_eq_none_iff (key : Str) (resp : Resp) :
   unfold checkHeaders RespChecksPass
   by_cases h1 : resp.status ≠ 101
   · simp [h1]
-  by_cases h2 : httpHeaderContains (get resp.header kConnection) (asc "Upgrade") = false
+  by_cases h2 : httpHeaderContainsToken (vals resp.header kConnection) (asc "Upgrade") = false
   · simp [h1, h2]
   by_cases h3 : foldEq (get resp.header kUpgrade) (asc "websocket") = false
   · simp [h1, h2, h3]
@@ -367,46 +448,42 @@ theorem clientHandshake_ok_iff (o : ClientOpt) (key : Str) (resp : Resp) (sp : S
 
 /-! ## the checks in the vocabulary of the properties -/
 
-theorem lower_Upgrade : lower (asc "Upgrade") = asc "upgrade" := by decide
-
-theorem contains_iff_infix (v : Str) :
-    httpHeaderContains v (asc "Upgrade") = true ↔ asc "upgrade" <:+: lower v := by
-  rw [httpHeaderContains_iff, lower_Upgrade]
-
 theorem checksPass_iff (r : Request) (auth : Bool) :
     ChecksPass r auth ↔
       (auth = true ∧ r.method = asc "GET" ∧ get r.header kVersion = asc "13" ∧
-       asc "upgrade" <:+: lower (get r.header kConnection) ∧
+       HasToken (vals r.header kConnection) (asc "upgrade") ∧
        foldEq (get r.header kUpgrade) (asc "websocket") = true ∧ get r.header kKey ≠ []) := by
   unfold ChecksPass
-  rw [foldEq_13, contains_iff_infix]
+  rw [foldEq_13, containsToken_iff]
 
 theorem respChecksPass_iff (key : Str) (resp : Resp) :
     RespChecksPass key resp ↔
-      (resp.status = 101 ∧ asc "upgrade" <:+: lower (get resp.header kConnection) ∧
+      (resp.status = 101 ∧ HasToken (vals resp.header kConnection) (asc "upgrade") ∧
        foldEq (get resp.header kUpgrade) (asc "websocket") = true ∧
        get resp.header kAccept = Base64.encode (Sha1.sha1 (key ++ asc Facts.magicNumber))) := by
   unfold RespChecksPass
-  rw [contains_iff_infix]
+  rw [containsToken_iff]
   rfl
 
-/-- sub-protocol selection succeeds: the server lists none, or one of its entries was offered -/
-def SubprotocolOk (server : List Str) (offer : Str) : Prop :=
-  server = [] ∨ ∃ p, p ∈ server ∧ p ∈ split offer
+/-- sub-protocol selection succeeds: the chooser lists none, or one of its entries is among the
+elements the peer listed -/
+def SubprotocolOk (mine peer : List Str) : Prop :=
+  mine = [] ∨ ∃ p, p ∈ mine ∧ p ∈ peer
 
-theorem subprotocolOk_iff (server : List Str) (offer : Str) :
-    SubprotocolOk server offer ↔ (server = [] ∨ intersectionElem server (split offer) ≠ []) := by
+theorem subprotocolOk_iff (mine peer : List Str) (hp : ∀ x ∈ peer, x ≠ []) :
+    SubprotocolOk mine peer ↔ (mine = [] ∨ intersectionElem mine peer ≠ []) := by
   unfold SubprotocolOk
-  rw [intersectionElem_ne_nil_iff _ _ (fun x hx => mem_split_ne_nil hx)]
+  rw [intersectionElem_ne_nil_iff _ _ hp]
 
 theorem isAccept_iff (o : ServerOpt) (r : Request) (auth : Bool) (ext : Option Str) :
     (serverDecide o r auth ext).isAccept = true ↔
-      ChecksPass r auth ∧ SubprotocolOk o.subProtocols (get r.header kProtocol) := by
+      ChecksPass r auth ∧ SubprotocolOk o.subProtocols (offer r) := by
+  have hne : ∀ x ∈ offer r, x ≠ [] := fun x hx => mem_offered_ne_nil hx
   by_cases hp : ChecksPass r auth
-  · rw [serverDecide_of_pass hp, subprotocolOk_iff]
+  · rw [serverDecide_of_pass hp, subprotocolOk_iff _ _ hne]
     by_cases hs : o.subProtocols = []
     · simp [hs, hp, Decision.isAccept]
-    · by_cases hi : intersectionElem o.subProtocols (split (get r.header kProtocol)) = []
+    · by_cases hi : intersectionElem o.subProtocols (offer r) = []
       · simp [hs, hi, hp, Decision.isAccept]
       · simp [hs, hi, hp, Decision.isAccept]
   · obtain ⟨e, he⟩ := serverDecide_of_not_pass (o := o) (ext := ext) hp
@@ -421,9 +498,9 @@ def sampleRequest (conn upg proto : List Str) : Request :=
     header := [(canon kVersion, [asc "13"]), (canon kConnection, conn), (canon kUpgrade, upg),
                (canon kKey, [asc "dGhlIHNhbXBsZSBub25jZQ=="]), (canon kProtocol, proto)] }
 
-def sampleResponse (accept : Str) (proto : List Str) : Resp :=
+def sampleResponse (conn : List Str) (accept : Str) (proto : List Str) : Resp :=
   { status := 101,
-    header := [(canon kConnection, [asc "upgrade"]), (canon kUpgrade, [asc "WebSocket"]),
+    header := [(canon kConnection, conn), (canon kUpgrade, [asc "WebSocket"]),
                (canon kAccept, [accept]), (canon kProtocol, proto)] }
 
 end Hs
